@@ -1381,11 +1381,15 @@ func (client *client) pollInflights() (cont bool, err error) {
 			// https://docs.oasis-open.org/mqtt/mqtt/v5.0/os/mqtt-v5.0-os.html#_Subscription_Options
 			// The Server need not use the same set of Subscription Identifiers in the retransmitted PUBLISH packet.
 			m.SubscriptionIdentifier = nil
-			client.pl.markUsedLocked(id)
+			if !client.pl.waitAndMarkUsedLocked(id) {
+				return false, nil
+			}
 			client.write(gmqtt.MessageToPublish(m.Message, client.version))
 		case *queue.Pubrel:
 			// the packet id stays in use until PUBCOMP
-			client.pl.markUsedLocked(id)
+			if !client.pl.waitAndMarkUsedLocked(id) {
+				return false, nil
+			}
 			client.write(&packets.Pubrel{PacketID: id})
 		}
 	}
